@@ -96,7 +96,13 @@ class TripWireTrigger {
     }
     explicit TripWireTrigger(TriplineType line): lineTrigger(std::move(line)) {}
     /** destructor*/
-    ~TripWireTrigger() { lineTrigger->store(true, std::memory_order_release); }
+    ~TripWireTrigger()
+    {
+        // a moved-from trigger no longer refers to a line
+        if (lineTrigger) {
+            lineTrigger->store(true, std::memory_order_release);
+        }
+    }
     /** move constructor*/
     TripWireTrigger(TripWireTrigger&& twt) = default;
     /** deleted copy constructor*/
